@@ -816,7 +816,7 @@ def run(ctx):
 
     def sim_run():
         try:
-            design["walks"] = multi.simulate_cases(ctx, "ListViewMulti", multi.sim_cfg(14), 40 if quick else 1000, 16, ctx.seed + 1)
+            design["walks"] = multi.simulate_cases(ctx, "ListViewMulti", multi.sim_cfg(14), 40 if quick else 500, 16, ctx.seed + 1)
         except BaseException as e:
             design["error"] = e
     threads = [threading.Thread(target=f) for f in (design_run, emit_run, sim_run)]
@@ -854,7 +854,7 @@ def run(ctx):
                                        forced=forced, stress=True, huge=(not quick and n < 20)))
             nstress += 1
         ctx.extra["stress_traces"] = nstress
-        mtraces = [multi.record_multi(rng, 30) for _ in range(120 if quick else 3000)]
+        mtraces = [multi.record_multi(rng, 30) for _ in range(120 if quick else 2000)]
         rejected, info, ncontrols = validate(ctx, traces)
         ctx.traces += len(traces)
         ctx.evaluations += len(traces)
